@@ -424,6 +424,23 @@ def w_large(acc, n):
     acc.classes["large-history"] += 1
 
 
+def w_long_lists(acc):
+    """List arguments of every length up to 12 (add and remove), with a block that is not held / a block listed twice at
+    every position: a call that raises leaves everything as it was, however long its argument."""
+    full = ["init", [["u", i] for i in range(U_SIZE)]]
+    for L in range(1, 13):
+        held = [["s", (j * 5) % U_SIZE] for j in range(L)]
+        acc.run("history", o_history, [full, ["remove", held, True], ["add", [["u", 0], ["u", 4]], False, True]], True)
+        for pos in range(L + 1):
+            for bad in (["u", 1], ["s", (0 * 5) % U_SIZE]):  # uni[1] sits inside a duplicate wrapper (not held itself); the other is listed twice
+                lst = held[:pos] + [bad] + held[pos:]
+                acc.run("history", o_history, [full, ["remove", lst, True], ["add", [["u", 0]], False, False], ["remove", [["s", 0]], False]], True)
+        many = [["u", (j * 7) % U_SIZE] for j in range(L)]
+        acc.run("history", o_history, [["add", many, False, True], ["remove", [["s", j] for j in range(0, L, 2)], True], ["add", many, False, True]], True)
+        acc.run("history", o_history, [["init", many], ["add", many[::-1], False, True], ["remove", [["s", 0], ["s", L - 1]] * 3, True]], True)
+    acc.classes["long-list-arguments"] += 1
+
+
 def op_strategy():
     from hypothesis import strategies as st
 
@@ -432,10 +449,10 @@ def op_strategy():
     cref = st.tuples(st.just("c"), st.integers(0, U_SIZE - 1)).map(list)
     held_or_not = st.one_of(uref, sref, sref, cref)
     add1 = st.tuples(st.just("add"), st.lists(st.one_of(uref, uref, uref, cref), min_size=1, max_size=1), st.just(False), st.booleans()).map(list)
-    addn = st.tuples(st.just("add"), st.lists(st.one_of(uref, uref, sref, cref), min_size=0, max_size=4), st.just(False), st.just(True)).map(list)
+    addn = st.tuples(st.just("add"), st.lists(st.one_of(uref, uref, sref, cref), min_size=0, max_size=9), st.just(False), st.just(True)).map(list)
     addf = st.tuples(st.just("add"), st.lists(st.one_of(uref, uref, sref), min_size=1, max_size=3), st.just(True), st.booleans()).map(list)
     rm1 = st.tuples(st.just("remove"), st.lists(held_or_not, min_size=1, max_size=1), st.booleans()).map(list)
-    rmn = st.tuples(st.just("remove"), st.lists(held_or_not, min_size=0, max_size=3), st.just(True)).map(list)
+    rmn = st.tuples(st.just("remove"), st.lists(st.one_of(sref, sref, sref, held_or_not), min_size=0, max_size=9), st.just(True)).map(list)
     rep = st.tuples(st.just("replace"), held_or_not, st.one_of(uref, uref, sref), st.booleans()).map(list)
     return st.one_of(add1, add1, add1, addn, addf, rm1, rm1, rmn, rep, rep, rep)
 
@@ -554,6 +571,7 @@ def run(chk):
             tasks.append(("w_enum", (d, first)))
     tasks.append(("w_enum_fail_flag", (3,)))
     tasks.append(("w_init", ()))
+    tasks.append(("w_long_lists", ()))
     tasks += [("w_large", (n,)) for n in (130, 300, 1100)]
     n_rand = 24000 if quick else 300000
     shards = 8 if quick else 32
